@@ -17,15 +17,15 @@ PROPS["C10"] = dict(
          shards=_c10_none([B_TET, B_TET2_FACE, B_LOWDIM]), timeout=300, mem_gb=4,
          bounds="bases B_TET, B_TET2_FACE, B_LOWDIM (duplicate edge created after the face's edge), no operation; " + _C10_SYM),
     # one deletion (selector over all entities of the kind), deferred deletion: deleted entities stay stored and must never be returned
-    dict(name="c10-del-tet", harness="C10_lookups.cpp", entries=["harness_c10"], units=CORE, unwind=30, checks="none", object_bits=13, defines=["C10_PER=4"],
-         shards={"quick": op_shards([B_TET], [1], _C10_DEL, per=4), "thorough": op_shards([B_TET], [0, 1, 2, 3], _C10_DEL, per=4)}, timeout=300, mem_gb=5,
-         bounds="B_TET after one delete_vertex/edge/face/cell of ANY entity (symbolic selector, 4 cases per query); quick: deferred deletion; thorough: all 4 (deferred x fast) modes; " + _C10_SYM),
+    dict(name="c10-del-tet", harness="C10_lookups.cpp", entries=["harness_c10"], units=CORE, unwind=30, checks="none", object_bits=13, defines=["C10_PER=2"],
+         shards={"quick": op_shards([B_TET], [1], _C10_DEL, per=2), "thorough": op_shards([B_TET], [0, 1, 2, 3], _C10_DEL, per=2)}, timeout=300, mem_gb=4,
+         bounds="B_TET after one delete_vertex/edge/face/cell of ANY entity (symbolic selector, 2 cases per query); quick: deferred deletion; thorough: all 4 (deferred x fast) modes; " + _C10_SYM),
     dict(name="c10-del-lowdim", harness="C10_lookups.cpp", entries=["harness_c10"], units=CORE, unwind=30, checks="none", object_bits=13, defines=["C10_PER=4"],
          shards={"quick": op_shards([B_LOWDIM], [1], _C10_DEL, per=4), "thorough": op_shards([B_LOWDIM], [0, 1, 2, 3], _C10_DEL, per=4)}, timeout=300, mem_gb=5,
          bounds="B_LOWDIM (triangle + dangling edge + isolated vertex + duplicate edge) after one delete_* of ANY entity (symbolic selector, 4 cases per query); quick: deferred; thorough: all 4 modes; " + _C10_SYM),
-    dict(name="c10-del-tet2", harness="C10_lookups.cpp", entries=["harness_c10"], units=CORE, unwind=30, checks="none", object_bits=13, defines=["C10_PER=2"],
-         shards={"quick": op_shards([B_TET2_FACE], [1], _C10_DEL, per=2), "thorough": op_shards([B_TET2_FACE], [0, 1, 2, 3], _C10_DEL, per=2)}, timeout=300, mem_gb=5,
-         bounds="B_TET2_FACE (two tets sharing a face) after one delete_* of ANY entity (symbolic selector, 2 cases per query); quick: deferred; thorough: all 4 modes; " + _C10_SYM),
+    dict(name="c10-del-tet2", harness="C10_lookups.cpp", entries=["harness_c10"], units=CORE, unwind=30, checks="none", object_bits=13, defines=["C10_PER=1"],
+         shards={"quick": op_shards([B_TET2_FACE], [1], _C10_DEL, per=1), "thorough": op_shards([B_TET2_FACE], [0, 1, 2, 3], _C10_DEL, per=1)}, timeout=300, mem_gb=4,
+         bounds="B_TET2_FACE (two tets sharing a face) after one delete_* of EVERY entity (one case per query); quick: deferred; thorough: all 4 modes; " + _C10_SYM),
     # duplicate edge created BEFORE the edge the face is built on: find_halfface(vertices)/find_halfface_extensive are incomplete there (notes/C10-findings.md)
     dict(name="c10-dupedge", harness="C10_lookups.cpp", entries=["harness_c10"], units=CORE, unwind=30, checks="none", object_bits=13, defines=["C10_PER=1"],
          shards=_c10_none([C10_B_DUPFIRST]), timeout=300, mem_gb=4,
@@ -34,12 +34,12 @@ PROPS["C10"] = dict(
     dict(name="c10-base-big", harness="C10_lookups.cpp", entries=["harness_c10_a", "harness_c10_b", "harness_c10_c"], units=CORE, unwind=30, checks="none", object_bits=13, defines=["C10_PER=1"],
          tiers=["thorough"], shards=_c10_none([B_HEX, B_PRISM_PYR, B_TET3_RING]), timeout=900, mem_gb=6,
          bounds="bases B_HEX, B_PRISM_PYR (mixed tri/quad faces), B_TET3_RING, no operation; entry a = all lookups except b, c; b = find_halfface(vertices); c = find_halfface_extensive; " + _C10_SYM),
-    dict(name="c10-del-big", harness="C10_lookups.cpp", entries=["harness_c10_a", "harness_c10_b", "harness_c10_c"], units=CORE, unwind=30, checks="none", object_bits=13, defines=["C10_PER=2"],
-         tiers=["thorough"], shards=op_shards([B_HEX, B_PRISM_PYR, B_TET3_RING], [1], _C10_DEL, per=2), timeout=900, mem_gb=6,
-         bounds="B_HEX, B_PRISM_PYR, B_TET3_RING after one deferred delete_* of ANY entity (symbolic selector, 2 cases per query); " + _C10_SYM),
-    dict(name="c10-swap-tet", harness="C10_lookups.cpp", entries=["harness_c10"], units=CORE, unwind=30, checks="none", object_bits=13, defines=["C10_PER=4"],
-         tiers=["thorough"], shards=op_shards([B_TET], [0], [OP_SWAP_V, OP_SWAP_E, OP_SWAP_F, OP_SWAP_C], per=4) + op_shards([B_LOWDIM], [0], [OP_SWAP_E], per=4), timeout=900, mem_gb=6,
-         bounds="B_TET after one swap_{vertex,edge,face,cell}_indices of ANY ordered pair, B_LOWDIM after swap_edge_indices of any pair (symbolic selector, 4 cases per query); " + _C10_SYM),
+    dict(name="c10-del-big", harness="C10_lookups.cpp", entries=["harness_c10_a", "harness_c10_b", "harness_c10_c"], units=CORE, unwind=30, checks="none", object_bits=13, defines=["C10_PER=1"],
+         tiers=["thorough"], shards=op_shards([B_HEX, B_PRISM_PYR, B_TET3_RING], [1], _C10_DEL, per=1), timeout=900, mem_gb=6,
+         bounds="B_HEX, B_PRISM_PYR, B_TET3_RING after one deferred delete_* of EVERY entity (one case per query); " + _C10_SYM),
+    dict(name="c10-swap-tet", harness="C10_lookups.cpp", entries=["harness_c10"], units=CORE, unwind=30, checks="none", object_bits=13, defines=["C10_PER=2"],
+         tiers=["thorough"], shards=op_shards([B_TET], [0], [OP_SWAP_V, OP_SWAP_E, OP_SWAP_F, OP_SWAP_C], per=2) + op_shards([B_LOWDIM], [0], [OP_SWAP_E], per=2), timeout=900, mem_gb=6,
+         bounds="B_TET after one swap_{vertex,edge,face,cell}_indices of ANY ordered pair, B_LOWDIM after swap_edge_indices of any pair (symbolic selector, 2 cases per query); " + _C10_SYM),
   ],
   assumptions=[
     "C10: meshes of the stated base family after at most one operation, all three bottom-up incidence kinds enabled; cell arguments are live, closed cells (all cells of the base family are closed 2-manifold surfaces)",
